@@ -63,7 +63,8 @@ def mk(rng):
     for p in paths:
         r = rng.random()
         if r < 0.35: reqs.append({'m': rng.choice(['GET', 'POST', 'PUT', 'PATCH', 'DELETE', 'HEAD']), 'p': p.hex(), 'origin': rng.random() < 0.8, 'acrm': None, 'acrh': None})
-        elif r < 0.92: reqs.append({'m': 'OPTIONS', 'p': p.hex(), 'origin': True, 'acrm': rng.choice(['GET', 'POST', 'PUT', 'PATCH', 'DELETE', 'HEAD', 'OPTIONS', 'get', 'TRACE', 'GET ']).strip() or 'GET',
+        elif r < 0.92: reqs.append({'m': 'OPTIONS', 'p': p.hex(), 'origin': True, 'acrm': (rng.choice(['GET', 'POST', 'PUT', 'PATCH', 'DELETE', 'HEAD', 'OPTIONS', 'get', 'TRACE', 'GET ']).strip() or 'GET') if rng.random() < 0.8 else
+                                            rng.choice(['G', 'ET', 'PU', 'T', 'E', 'OPTION', 'PTIONS', 'GET, PUT', 'GET, HEAD', 'HEAD, OPTIONS', 'DELETE, OPTIONS', ', ', ',', 'GET,', 'GETPUT', 'Post', 'PATCH, OPTIONS', 'OPTIONS, GET']),          # not a method: a piece of one, a list
                                     'acrh': rng.choice([None, 'X-Token', 'content-type, x-requested-with'])})
         else: reqs.append({'m': 'OPTIONS', 'p': p.hex(), 'origin': True, 'acrm': None, 'acrh': None})
     for r in reqs: r['hcase'] = rng.choice([0, 0, 1, 2, 3])          # header names in any letter case
